@@ -14,6 +14,13 @@ TranslateError (broken tie).  Generated definitions (all prefixed s3_ / jwt_):
   s3_request_unwraps : list (string * list string)    ConnectionError handler of _request: isinstance(cause, T) [and
                                                       isinstance(cause.reason, (R...))] -> raise cause
   s3_loop_catches : list string                    exception tuple caught by the retry loop of S3ChunkStore.request
+  s3_verify_steps : list string                    the statements of S3ChunkStore._verify_bucket IN SOURCE ORDER, each one of
+                                                   "return_if_cached" (`if bucket in self._verified_buckets: return`),
+                                                   "listing" (try: response = self.request('GET', bucket, ...) except
+                                                   S3ObjectNotFound: raise <s3_verify_missing>), "raise_if_empty"
+                                                   (`if b'<Contents>' not in response.content: raise <s3_verify_empty>`),
+                                                   "add" (`self._verified_buckets.add(bucket)`); the model interprets them
+  s3_verify_missing, s3_verify_empty : string      exceptions raised for a missing / an empty bucket
   jwt_sig_alg : string, jwt_sig_len : Z            signature-length check of decode_jwt
   jwt_scheme, jwt_host_exception : string          _auth_factory https rule
 """
@@ -294,4 +301,101 @@ def item_streaming(repo, out):
         raise TranslateError('from_url: ChunkStoreError is not turned into DataSourceNotFound')
 
 
-ITEMS = [item_glitches, item_raise_for_status, item_store_init, item_request, item_jwt, item_streaming]
+def _attr_uses(node, attr):
+    return [n for n in ast.walk(node) if isinstance(n, ast.Attribute) and n.attr == attr
+            and isinstance(n.value, ast.Name) and n.value.id == 'self']
+
+
+def item_store_state(repo, out):
+    """State an S3ChunkStore object carries from one request to the next: the verified-bucket cache (who reads it, who
+    adds to it, and WHEN relative to the checks), the per-store Retry template, the session pool."""
+    tree = _parse(repo, REL)
+    cls = _class(tree, 'S3ChunkStore', REL)
+    what = '_verify_bucket'
+    fn = _func(cls, '_verify_bucket', REL)
+    if [a.arg for a in fn.args.args] != ['self', 'url', 'chunk_error']:
+        raise TranslateError(what + ': unexpected signature')
+    body = [s for s in fn.body if not (isinstance(s, ast.Expr) and isinstance(s.value, ast.Constant))]
+    if not body or ast.unparse(body[0]) != 'bucket = _bucket_url(url)':
+        raise TranslateError(what + ': must start with `bucket = _bucket_url(url)`')
+    steps, missing, empty = [], None, None
+    for s in body[1:]:
+        src = ast.unparse(s)
+        if src == 'if bucket in self._verified_buckets:\n    return':
+            steps.append('return_if_cached')
+        elif src == 'self._verified_buckets.add(bucket)':
+            steps.append('add')
+        elif isinstance(s, ast.Try):
+            if not (len(s.body) == 1 and not s.orelse and not s.finalbody and len(s.handlers) == 1
+                    and ast.unparse(s.body[0]) == "response = self.request('GET', bucket, params={'max-keys': 1})"):
+                raise TranslateError(what + ': try body is not the single bucket-listing request')
+            h = s.handlers[0]
+            if not (h.type is not None and _names(h.type) == ['S3ObjectNotFound'] and len(h.body) == 1
+                    and isinstance(h.body[0], ast.Raise) and h.body[0].cause is not None
+                    and ast.unparse(h.body[0].cause) == 'chunk_error'):
+                raise TranslateError(what + ': listing handler is not `except S3ObjectNotFound: raise X(..) from chunk_error`')
+            missing = _raised(h.body[0], what)
+            steps.append('listing')
+        elif isinstance(s, ast.Assert):
+            if not src.startswith('assert response.ok,'):
+                raise TranslateError(what + ': unexpected assert')
+            if 'listing' not in steps:
+                raise TranslateError(what + ': response used before the listing request')
+        elif isinstance(s, ast.If):
+            if not (ast.unparse(s.test) == "b'<Contents>' not in response.content" and not s.orelse and len(s.body) == 2
+                    and isinstance(s.body[0], ast.Assign) and ast.unparse(s.body[0].targets[0]) == 'msg'
+                    and isinstance(s.body[1], ast.Raise) and s.body[1].cause is not None):
+                raise TranslateError(what + ': unrecognised if statement: ' + src[:60])
+            empty = _raised(s.body[1], what)
+            steps.append('raise_if_empty')
+        else:
+            raise TranslateError(what + ': unrecognised statement: ' + src[:60])
+    for k in ('return_if_cached', 'listing', 'raise_if_empty', 'add'):
+        if steps.count(k) > 1:
+            raise TranslateError(what + ': statement %s occurs %d times' % (k, steps.count(k)))
+    if missing is None or empty is None:
+        raise TranslateError(what + ': the listing request or the empty-bucket test is gone')
+    # nobody else reads or writes the cache; it starts empty
+    init = _func(cls, '__init__', REL)
+    uses = _attr_uses(cls, '_verified_buckets')
+    inside = _attr_uses(fn, '_verified_buckets')
+    in_init = _attr_uses(init, '_verified_buckets')
+    if 'self._verified_buckets = set()' not in [ast.unparse(s) for s in init.body] or len(in_init) != 1:
+        raise TranslateError('__init__: the verified-bucket cache does not start as an empty set')
+    if len(uses) != len(inside) + 1 or len(inside) != steps.count('return_if_cached') + steps.count('add'):
+        raise TranslateError('_verified_buckets is used outside __init__ / the recognised statements of _verify_bucket')
+    if any('_verified_buckets' in ast.unparse(n) for n in tree.body if n is not cls):
+        raise TranslateError('_verified_buckets is used outside S3ChunkStore')
+    # the cache key: first path component of the (normalised) chunk URL
+    bu = _func(tree, '_bucket_url', REL)
+    bsrc = [ast.unparse(s) for s in bu.body if not (isinstance(s, ast.Expr) and isinstance(s.value, ast.Constant))]
+    if bsrc != ['split_url = urllib.parse.urlsplit(url)', "bucket_name = split_url.path.lstrip('/').split('/')[0]",
+                'return split_url._replace(path=bucket_name).geturl()']:
+        raise TranslateError('_bucket_url: unexpected body')
+    # get_chunk: the 404 handler verifies the bucket of THIS chunk URL and re-raises
+    gc = _func(cls, 'get_chunk', REL)
+    trs = [s for s in gc.body if isinstance(s, ast.Try)]
+    if len(trs) != 1 or len(trs[0].handlers) != 1 or trs[0].orelse or trs[0].finalbody or len(trs[0].body) != 1:
+        raise TranslateError('get_chunk: expected one try with one handler around the request')
+    h = trs[0].handlers[0]
+    if _names(h.type) != ['S3ObjectNotFound'] or [ast.unparse(s) for s in h.body] != ['self._verify_bucket(url, err)', 'raise']:
+        raise TranslateError('get_chunk: 404 handler is not `self._verify_bucket(url, err); raise`')
+    if not ast.unparse(trs[0].body[0]).startswith("chunk = self.request('GET', url, _read_chunk,"):
+        raise TranslateError('get_chunk: try body is not the chunk request')
+    if 'url = self.make_url(chunk_name + _CHUNK_EXTENSION)' not in [ast.unparse(s) for s in gc.body]:
+        raise TranslateError('get_chunk: url is not make_url(chunk_name + _CHUNK_EXTENSION)')
+    # per-store request parameters and the session pool are set once, in __init__
+    for attr in ('retries', 'timeout', '_session_pool', '_url'):
+        stores = [n for n in _attr_uses(cls, attr) if isinstance(n.ctx, (ast.Store, ast.Del))]
+        if len(stores) != 1 or stores[0] not in list(ast.walk(init)):
+            raise TranslateError('self.%s is assigned outside __init__ (or more than once)' % attr)
+    req = _func(cls, 'request', REL)
+    rb = [ast.unparse(s) for s in req.body]
+    if 'retries = self.retries if retries is None else _retry_object(retries)' not in rb:
+        raise TranslateError('request: retries do not start from self.retries')
+    out.append('Definition s3_verify_steps : list string := %s.' % coq_strings(steps))
+    out.append('Definition s3_verify_missing : string := %s.' % coq_string(missing))
+    out.append('Definition s3_verify_empty : string := %s.' % coq_string(empty))
+
+
+ITEMS = [item_glitches, item_raise_for_status, item_store_init, item_request, item_jwt, item_streaming, item_store_state]
